@@ -1,7 +1,9 @@
 """C01: Newick write/parse round trip preserves the whole tree."""
 from lib import *
+import random
 
 PROP = "C01"
+PAR_OK = True
 LEVEL = "proof"
 RULE = ("op roundtrip: random trees inside the quantifier (2..14 tips, thorough ..40; rooted / unrooted / root of degree up to 6, "
         "multifurcations, inner nodes with a single child, parent slot at random positions; tip names plain, with interior blanks, "
@@ -12,11 +14,15 @@ RULE = ("op roundtrip: random trees inside the quantifier (2..14 tips, thorough 
         "comments, branch comment without length, names with metacharacters / surrounding blanks / numeric inner names, ']' in "
         "comments, empty tip names, root with one child, NUL or invalid UTF-8 in names/comments) for the correspondence only; op parse: valid texts with blanks inserted "
         "between tokens, truncations, splices, character and raw-byte mutations/insertions/deletions (NUL, invalid UTF-8) of valid texts and a fixed list of "
-        "hand-written edge cases, number texts (long decimals, exponents, hex floats, underscores, halfway and overflow/underflow boundaries) in length and support position; a case is non-trivial when it is a round trip inside the quantifier or an accepted text; "
+        "hand-written edge cases; a deterministic buffer-boundary sweep (one-line texts of 4.5-20 KB, thorough 70 KB, in which each character class legal "
+        "in the quantifier -- ; ( ) , : [ blank CR in comments, blank quote tab '/' and multi-byte characters in names, digits . - / of numbers, the structural "
+        "characters, the final ';' -- is placed at byte offsets B-2..B+1, B = 4096, 8192, 65536, by padding the first tip name); every text is also read through "
+        "utils.ReadMultiTrees/ReadUntilSemiColon and compared with Model/MultiTree.v; number texts (long decimals, exponents, hex floats, underscores, halfway and overflow/underflow boundaries) in length and support position; a case is non-trivial when it is a round trip inside the quantifier or an accepted text; "
         "distinct = distinct case text")
 TRUSTED = ["tree built through NewNode/NewEdge + verif hooks (exact neighbour order); dump through Neigh()/Edges()/Left()/Right()",
            "strconv.ParseFloat / FormatFloat are re-implemented in Model/NewickNum.v (syntax of readFloat/special/underscoreOK, "
-           "correct rounding to binary64, exact decimal expansion) and compared with the real ones through every case"]
+           "correct rounding to binary64, shortest digits that read back, %f layout) and compared with the real ones through every case; "
+           "proved about the re-implementation: every finite binary64 value prints to digits/'.'/'-' only and reads back (C01_numok_binary64, C01_fmt_go_chars)"]
 ASSUMPTIONS = ["strconv: FormatFloat(x,'f',-1,64) of a finite x is non-empty, free of ()[],:;/ and blanks, and ParseFloat reads it back "
                "to x (Section hypotheses of the round-trip theorem; instantiated for exact finite decimals)",
                "names and comments are valid UTF-8 text without NUL (the reader decodes runes, replaces undecodable bytes by U+FFFD and takes "
@@ -314,6 +320,128 @@ def caterpillar(n, rng):
         t = inner
     return t
 
+# ---------------------------------------------------------------- buffer boundaries
+# Big one-line texts (4.5-20 KB, thorough also 70 KB) in which one character of each class that is
+# legal inside the quantifier is placed at byte offsets B-2 .. B+1 of the text, B a multiple of the
+# 4096-byte bufio buffer the readers use, by padding the name of the first tip.
+
+def _tipn(name, coms=None):
+    return {"name": name, "coms": coms or [], "slots": [None]}
+
+def _edge(l=None, sup=None, pv=None, coms=None):
+    return {"len": l, "sup": sup, "pv": pv, "coms": coms or []}
+
+def _clade(name, kids_, coms=None):
+    return {"name": name, "coms": coms or [], "slots": [None] + kids_}
+
+def _filler(frng, i):
+    """a small decorated clade; no line feed, every decoration of the quantifier"""
+    a = _tipn("f%da" % i, ["c%d" % i] if i % 3 == 0 else [])
+    b = _tipn("f%d b" % i)
+    c = _tipn("%d" % (1000 + i))
+    inner = _clade("" if i % 2 else "I%d" % i, [(_edge(Fraction(i % 64, 64)), a), (_edge(Fraction(1 + i % 7, 1024), coms=["e;%d" % i] if i % 5 == 0 else []), b)],
+                   ["n(%d)" % i] if i % 4 == 0 else [])
+    e = _edge(Fraction(3 * i % 128, 64), sup=None if inner["name"] else Fraction(i % 65, 64), pv=None)
+    if e["sup"] is not None and i % 6 == 1:
+        e["pv"] = Fraction(1, 1024)
+    return [(e, inner), (_edge(Fraction(-(i % 5) - 2, 4)), c)]
+
+# class -> (node builder, marker bytes, offsets within the marker to align)
+def _target(cls):
+    m = "QzX"   # unique marker prefix
+    if cls.startswith("com"):          # a character inside a node comment
+        ch = {"com;": ";", "com(": "(", "com)": ")", "com,": ",", "com:": ":", "com[": "[", "com;sp": "; \t ", "comcr": "\r", "comsp": " "}[cls]
+        mark = m + ch + "zQ"
+        return (_edge(Fraction(1, 2)), _tipn("T", [mark])), mark.encode(), [len(m)]
+    if cls == "ecom;":                 # inside a branch comment
+        mark = m + ";zQ"
+        return (_edge(Fraction(1, 2), coms=[mark]), _tipn("T")), mark.encode(), [len(m)]
+    if cls.startswith("name"):         # inside a tip name: blank, quotes, tab, multi-byte characters
+        ch = {"name ": " ", "name'": "'", 'name"': '"', "name\t": "\t", "nameutf8": "\u00e9\u20ac\U0001f600", "name/": "/"}[cls]
+        mark = m + ch + "zQ"
+        offs = list(range(len(m.encode()), len((m + ch).encode())))
+        return (_edge(Fraction(1, 2)), _tipn(mark)), mark.encode(), offs
+    if cls == "number":                # digits, '.', '-', '/' of printed numbers and the ':' in front
+        inner = _clade("", [(_edge(), _tipn("Ta")), (_edge(), _tipn("Tb"))])
+        e = _edge(Fraction(-7654321, 1024), sup=Fraction(15, 16), pv=Fraction(1, 1024))
+        mark = ")0.9375/0.0009765625:-7474.9228515625"
+        return (e, inner), mark.encode(), [1, 7, 8, 20, 21, 26, 37]
+    if cls == "struct":                # the structural characters themselves
+        inner = _clade("QzN", [(_edge(Fraction(1, 2)), _tipn("QzA", ["k"])), (_edge(Fraction(1, 4), coms=["e"]), _tipn("QzB"))], ["c1", "c2"])
+        mark = ",(QzA[k]:0.5,QzB:0.25[e])QzN[c1][c2]:3"
+        return (_edge(Fraction(3)), inner), mark.encode(), [0, 1, 5, 7, 8, 12, 21, 24, 25, 28, 36]
+    raise ValueError(cls)
+
+BOUNDARY_CLASSES = ["com;", "com(", "com)", "com,", "com:", "com[", "com;sp", "comcr", "comsp", "ecom;",
+                    "name ", "name'", 'name"', "name\t", "nameutf8", "name/", "number", "struct"]
+
+_FILL_LEN = {}
+
+def boundary_tree(cls, B, off_in_mark, delta, tail):
+    """tree whose text has byte [off_in_mark] of the class marker at offset B+delta"""
+    frng = random.Random(B * 31 + len(cls))
+    target, mark, _ = _target(cls)
+    pad = _tipn("P")
+    def build(nfill):
+        kids_ = [(_edge(Fraction(1, 64)), pad)]
+        for i in range(nfill):
+            kids_ += _filler(frng, i)
+        kids_.append(target)
+        for i in range(tail):
+            kids_ += _filler(frng, 5000 + i)
+        return {"name": "", "coms": ["root;c"], "slots": kids_}
+    # as many fillers as fit in front of the target
+    base = nw(build(0)).encode("utf-8").find(mark) + off_in_mark
+    nfill = 0
+    while True:
+        key = nfill
+        if key not in _FILL_LEN:
+            _FILL_LEN[key] = len(nw({"name": "", "coms": [], "slots": _filler(frng, key)}).encode("utf-8")) - 2
+        if base + _FILL_LEN[key] > B - 40:
+            break
+        base += _FILL_LEN[key]
+        nfill += 1
+    t = build(nfill)
+    txt = nw(t).encode("utf-8")
+    idx = txt.find(mark)
+    assert idx >= 0 and txt.find(mark, idx + 1) < 0, cls
+    shift = B + delta - (idx + off_in_mark)
+    assert shift >= 0, (cls, shift)
+    pad["name"] = "P" + "p" * shift
+    return t
+
+def gen_boundary(tier):
+    out = []
+    Bs = [4096, 8192] + ([65536] if tier == "thorough" else [])
+    for cls in BOUNDARY_CLASSES:
+        offs = _target(cls)[2]
+        for B in Bs:
+            # all alignments of the first marker offset; the other offsets of the class on a rotating delta
+            plan = [(offs[0], d) for d in (-2, -1, 0, 1)]
+            for k, o in enumerate(offs[1:]):
+                plan += [(o, d) for d in (((-1, 0) if k % 2 else (0, 1)) if tier != "thorough" else (-2, -1, 0, 1))]
+            if tier == "search":
+                plan = plan[:2]
+            for k, (o, d) in enumerate(plan):
+                t = boundary_tree(cls, B, o, d, tail=(8 if k % 2 else 1))
+                out.append({"sx": sx({"op": Sym("roundtrip"), "tree": T(t)}),
+                            "meta": {"op": "roundtrip", "kind": "boundary:" + cls, "B": B, "delta": d}})
+    # the final ';' of the text itself at the boundary
+    for B in Bs:
+        for d in (-2, -1, 0, 1):
+            frng = random.Random(B)
+            pad = _tipn("P")
+            kids_ = [(_edge(Fraction(1, 64)), pad)]
+            i = 0
+            while len(nw({"name": "", "coms": [], "slots": kids_}).encode()) < B - 200:
+                kids_ += _filler(frng, i); i += 1
+            t = {"name": "", "coms": [], "slots": kids_}
+            n = len(nw(t).encode())
+            pad["name"] = "P" + "p" * (B + d - (n - 1))
+            out.append({"sx": sx({"op": Sym("roundtrip"), "tree": T(t)}),
+                        "meta": {"op": "roundtrip", "kind": "boundary:end", "B": B, "delta": d}})
+    return out
+
 def gen(rng, tier):
     g = G(rng)
     nwf, nout, nval, nmal, nnum = {"quick": (600, 200, 100, 400, 150), "thorough": (40000, 10000, 5000, 35000, 10000), "search": (300, 100, 50, 250, 50)}[tier]
@@ -341,6 +469,8 @@ def gen(rng, tier):
             t = caterpillar(d, rng)
             texts.append(nw(t))
             rt(t, "wf")
+    # the big boundary texts are spread over the whole list (the runner works on consecutive chunks in parallel)
+    big = gen_boundary(tier)
     for _ in range(nnum):
         x = numtext(rng)
         ps(rng.choice(["(A:%s,B);", "((A,B)%s,C);", "((A,B)%s/0.5,C);", "((A,B)0.5/%s:1,C);", "(A:%s"]) % x, "numfuzz")
@@ -359,4 +489,10 @@ def gen(rng, tier):
             ps(mutate(rng, s), "mut")
         else:
             ps(mutate_bytes(rng, s), "bytes")
-    return out
+    step = max(1, len(out) // max(1, len(big)))
+    res = []
+    for i, c in enumerate(out):
+        res.append(c)
+        if i % step == 0 and big:
+            res.append(big.pop())
+    return res + big
